@@ -207,7 +207,6 @@ def f_misplaced(it, g, pos, spell):
     t_opts = {
         "t_parent": ("parent", None, (f"Member instruction 'parent' is not applicable to enums.{pf}" if enum else f"Member instruction 'parent' should be used on a member.{pf}")),
         "t_ghost": ("ghost", "{k()}", f"Perhaps you meant 'ghosts'?{pf}"),
-        "t_ghost_ref": ("ghost_ref", "{k()}", f"Perhaps you meant 'ghosts_ref'?{pf}"),
         "t_children": ("children", "a: A", f"Perhaps you meant 'child_parents'?{pf}"),
         "t_child": ("child", "a", (f"Member instruction 'child' is not applicable to enums.{pf}" if enum else f"Perhaps you meant 'child_parents'?{pf}")),
         "t_literal": ("literal", "1", f"Member instruction 'literal' should be used on a member.{pf}"),
@@ -220,6 +219,7 @@ def f_misplaced(it, g, pos, spell):
         "m_where": ("where_clause", "T: Clone", f"Struct instruction 'where_clause' should be used on a struct.{pf}"),
     }
     if own:
+        t_opts["t_ghost_ref"] = ("ghost_ref", "{k()}", "Perhaps you meant 'ghosts_ref'?")   # no bare form: only reachable through #[o2o(..)]
         t_opts["t_unknown"] = (f"foo{g.mark()}", "x", None)
         m_opts["m_unknown"] = (f"bar{g.mark()}", "x", None)
         t_opts["t_as_type"] = ("as_type", "i32", (f"Member instruction 'as_type' is not applicable to enums." if enum else f"Member instruction 'as_type' should be used on a member."))
@@ -335,6 +335,10 @@ def f_repeat_conflict(it, g, pos, spell):
                "default": "Default Case statement will be overriden. Did you forget to use 'skip_repeat'?"}[sub]
     i = _ins(it.attrs, pos, a)
     it.attrs.insert(g.r.randint(i + 1, len(it.attrs)), b)
+    # instructions of the same name that the base input already has may collide with the template first: any of the
+    # documented repeat-conflict diagnostics names the problem
+    if any(x.kind == "trait" and x.name == nm and x is not a and x is not b for x in it.attrs):
+        return Fault("repeat_conflict", sub, [re.compile(r"will be overriden\. Did you forget to use 'skip_repeat'\?$|^Previous repeat\(\) instruction must be terminated with 'stop_repeat'$")], parse_stage=True)
     return Fault("repeat_conflict", sub, [msg], parse_stage=True)
 
 
